@@ -431,6 +431,19 @@ impl TransactionTracker {
     }
 }
 
+// Verification hook: ids of the live read snapshots with their reference counts
+#[cfg(redb_verif)]
+impl TransactionTracker {
+    pub(crate) fn verif_live_reads(&self) -> Vec<(u64, u64)> {
+        let state = self.state.lock().unwrap();
+        state
+            .live_read_transactions
+            .iter()
+            .map(|(id, count)| (id.raw_id(), *count))
+            .collect()
+    }
+}
+
 #[cfg(test)]
 mod test {
     use super::*;
